@@ -65,7 +65,7 @@ CHECKS = {
         text='Inserted tokens are materialised as zero-length faulty lexemes at the start of the next real lexeme and fed to one LR '
              'step over [laidx, laidx+1) in both search and replay; success criterion (3 trailing shifts or Accept) with a single '
              'constant; the sequence replayed on the real stacks is element 0 of the returned vector; the three copies of the LR '
-             'step (driver, replay, search) agree on lookup key, reduce, shift and accept/error behaviour.',
+             'step (driver, replay, search) agree on lookup key, reduce, shift and accept/error behaviour. The replay of a reported sequence on the real stacks does what the sequence says, per repair kind (Insert: one faulty lexeme over [i,i+1), index kept; Delete: index+1; Shift: the input over [i,i+1), index from the parse).',
         note='Validity of every reconstructed sequence and equality of the final value with a re-parse are search results over runtime stacks and are NOT decided. Trusted: ' + TB,
         technique='symbolic path tables + sibling agreement between duplicated LR-step implementations in MIR',
         ref='§4 C05'),
@@ -86,7 +86,7 @@ CHECKS = {
              'continue at the returned index); the search\'s cost-bucket list is long enough for any neighbour cost when indexed; budget only shrinks and bounds the deadline; every cycle of every loop in the '
              'recovery cone is deadline-tested, iterator driven, counter bounded or consuming; every give-up exit of recover '
              'returns (unchanged index, no repairs); a Shift repair is recorded only for a move that consumed a lexeme (so the '
-             '"three trailing shifts" of the success test are three real lexemes).',
+             '"three trailing shifts" of the success test are three real lexemes). The replay of a repair sequence on the real stacks moves exactly as far as the sequence says (shared with C05).',
         note='Strictly increasing error positions three lexemes apart depend on what the search finds and are NOT decided beyond that. Trusted: ' + TB,
         technique='symbolic path tables of the driver, per-cycle classification of recovery loops (deadline / iterator / counter / consuming) in MIR',
         ref='§4 C07'),
@@ -96,7 +96,7 @@ CHECKS = {
              'lexer, the very span pushed on the span stack, the drained child values, a clone of the parameter); the '
              'hand-duplicated reduce code of driver and replay is compared with each other after replacing stacks by role '
              'symbols; generic-tree mapping order; on a shift the span pushed is that of the lexeme pushed; the span handed to '
-             'an action runs from the first popped entry that derived something to the end of the last entry, or is zero-length.',
+             'an action runs from the first popped entry that derived something to the end of the last entry, or is zero-length. On a shift the lexeme pushed is the one whose token was looked up on that round.',
         note='The span SHAPE is decided (R8.7: an empty production gets a zero-length span - found and fixed a defect, /repo '
              '26c2db3); that each span-stack entry holds what its symbol derived is NOT decided. Trusted: ' + TB,
         technique='sibling agreement on canonicalised symbolic terms + exactly-once path counting in MIR',
